@@ -67,6 +67,12 @@ def hash_definition(func: Callable) -> str:
         # Functions created by one factory share their source; the values they
         # captured are part of what they compute (x * k for k=2 vs k=3)
         h.update(_closure_fingerprint(func))
+        # getsource() returns the whole line for a lambda: several lambdas written
+        # on one line share it, only their code tells them apart
+        code = getattr(func, "__code__", None)
+        if code is not None and code.co_name == "<lambda>":
+            h.update(code.co_code)
+            h.update(repr(tuple(c if not hasattr(c, "co_name") else c.co_name for c in code.co_consts)).encode())
         return h.hexdigest()
 
     # Bytecode fallback — for exec/eval/Jupyter-defined functions
